@@ -246,7 +246,7 @@ public:
     void pop_back()
     {
         assert(!empty());
-        alloc_traits::destroy(alloc_, std::addressof(data_[begin_]));
+        alloc_traits::destroy(alloc_, std::addressof(data_[(end_ - 1) & mask_]));
         --end_ &= mask_;
     }
 
